@@ -291,3 +291,230 @@ func ast_inspectAssign(info *types.Info, fi *FuncInfo, v *types.Var, report func
 }
 
 func osArgs() []string { return os.Args }
+
+// ---- transparent helpers ---------------------------------------------------------
+//
+// A maintainer may move a repeated expression into a small unexported helper
+// (`return &spb.ModifyResponse{…}`, `return &spb.Uint128{Low: electionID.Load()}`).
+// Rules that classify values or scan for literals see through such helpers: a
+// "simple helper" is a repo function whose body is exactly one return statement
+// with one result.
+
+var gProg *Prog
+
+// simpleHelper returns the callee and its returned expression when call invokes a simple helper.
+func simpleHelper(info *types.Info, call *ast.CallExpr) (*FuncInfo, ast.Expr) {
+	if gProg == nil {
+		return nil, nil
+	}
+	f, ok := calleeObj(info, call).(*types.Func)
+	if !ok || f.Pkg() == nil || !isRepoPkg(f.Pkg()) || isGeneratedPkg(f.Pkg().Path()) {
+		return nil, nil
+	}
+	fi := gProg.infoFor(f)
+	if fi == nil || fi.Decl.Body == nil || len(fi.Decl.Body.List) != 1 {
+		return nil, nil
+	}
+	rs, ok := fi.Decl.Body.List[0].(*ast.ReturnStmt)
+	if !ok || len(rs.Results) != 1 {
+		return nil, nil
+	}
+	return fi, rs.Results[0]
+}
+
+// isSimpleHelperDecl: fd is a simple helper (its literals are attributed to its call sites).
+func isSimpleHelperDecl(fd *ast.FuncDecl) bool {
+	if fd.Body == nil || len(fd.Body.List) != 1 {
+		return false
+	}
+	rs, ok := fd.Body.List[0].(*ast.ReturnStmt)
+	return ok && len(rs.Results) == 1
+}
+
+// litRef is a composite literal reached from a scanned body, possibly through
+// a simple helper; Arg maps the helper's parameters to the caller's argument
+// expressions (nil when the literal is written in the scanned body itself).
+type litRef struct {
+	Lit  *ast.CompositeLit
+	Info *types.Info // info of the function the literal is written in
+	Site ast.Node    // the literal, or the helper call in the scanned body
+	Arg  map[types.Object]ast.Expr
+}
+
+// callerExpr maps an expression of the literal back into the scanned body: a
+// helper parameter becomes the caller's argument.
+func (l litRef) callerExpr(e ast.Expr) (ast.Expr, bool) {
+	if l.Arg == nil {
+		return e, true
+	}
+	if id, ok := ast.Unparen(e).(*ast.Ident); ok {
+		if a, ok := l.Arg[l.Info.ObjectOf(id)]; ok {
+			return a, true
+		}
+	}
+	return e, false
+}
+
+// litsThroughHelpers finds literals of the named struct type in n and in the
+// simple helpers called from n (one level).
+func litsThroughHelpers(info *types.Info, n ast.Node, pkg, name string) []litRef {
+	var out []litRef
+	for _, cl := range litsOfType(info, n, pkg, name) {
+		out = append(out, litRef{Lit: cl, Info: info, Site: cl})
+	}
+	ast.Inspect(n, func(m ast.Node) bool {
+		call, ok := m.(*ast.CallExpr)
+		if !ok {
+			return true
+		}
+		fi, ret := simpleHelper(info, call)
+		if fi == nil {
+			return true
+		}
+		hinfo := fi.Pkg.TypesInfo
+		lits := litsOfType(hinfo, ret, pkg, name)
+		if len(lits) == 0 {
+			return true
+		}
+		arg := map[types.Object]ast.Expr{}
+		for i, p := range paramObjs(hinfo, fi.Decl) {
+			if p != nil && i < len(call.Args) {
+				arg[p] = call.Args[i]
+			}
+		}
+		for _, cl := range lits {
+			out = append(out, litRef{Lit: cl, Info: hinfo, Site: call, Arg: arg})
+		}
+		return true
+	})
+	return out
+}
+
+// resolveLocal follows a local declared once (x := <expr>, never reassigned) to its defining expression.
+func resolveLocal(info *types.Info, fd *ast.FuncDecl, e ast.Expr) ast.Expr {
+	for depth := 0; depth < 4; depth++ {
+		e = ast.Unparen(e)
+		id, ok := e.(*ast.Ident)
+		if !ok || fd == nil {
+			return e
+		}
+		v, ok := info.ObjectOf(id).(*types.Var)
+		if !ok || v.IsField() || isParamOf(info, fd, v) {
+			return e
+		}
+		def := soleDefinition(info, fd, v)
+		if def == nil {
+			return e
+		}
+		e = def
+	}
+	return e
+}
+
+// canonTerm renders e canonically in the context of fi (getters as fields,
+// locals declared once replaced by their definition).
+func canonTerm(fi *FuncInfo, e ast.Expr) string {
+	uq := 0
+	x := &condXlat{info: fi.Pkg.TypesInfo, fd: fi.Decl, uniq: &uq}
+	t, _ := x.term(e)
+	return t
+}
+
+// roleTerm renders e canonically with the function's receiver and parameters
+// replaced by their roles (recv, p0, p1, …): x.parent.opCount → recv.parent.opCount.
+func roleTerm(fi *FuncInfo, e ast.Expr) string {
+	t := canonTerm(fi, e)
+	root, rest := t, ""
+	for i := 0; i < len(t); i++ {
+		if t[i] == '.' || t[i] == '[' {
+			root, rest = t[:i], t[i:]
+			break
+		}
+	}
+	info := fi.Pkg.TypesInfo
+	if o := recvObj(info, fi.Decl); o != nil && o.Name() == root {
+		return "recv" + rest
+	}
+	for i, p := range paramObjs(info, fi.Decl) {
+		if p != nil && p.Name() == root {
+			return "p" + itoa(i) + rest
+		}
+	}
+	return t
+}
+
+// ---- closures and named functions are interchangeable -----------------------------
+//
+// `go func() {…}()` may become `go s.recvLoop(a, b)`, `h := func(){…}` may become
+// a method. bodyRef gives rules one view of both.
+
+type bodyRef struct {
+	Body   *ast.BlockStmt
+	FI     *FuncInfo    // the declared function the body belongs to (the enclosing one for a literal)
+	Lit    *ast.FuncLit // nil for a declared function
+	Params []types.Object
+	Caller *FuncInfo                 // function containing the reference
+	ArgOf  map[types.Object]ast.Expr // parameter → argument expression in Caller (when called)
+}
+
+// resolveFuncBody resolves a function-valued expression used in fi: a literal,
+// a local declared once as a literal, or a repo function / method value.
+func resolveFuncBody(fi *FuncInfo, fun ast.Expr) *bodyRef {
+	info := fi.Pkg.TypesInfo
+	fun = ast.Unparen(fun)
+	if fl, ok := fun.(*ast.FuncLit); ok {
+		return &bodyRef{Body: fl.Body, FI: fi, Lit: fl, Params: paramObjsLit(info, fl), Caller: fi}
+	}
+	if id, ok := fun.(*ast.Ident); ok {
+		if v, ok := info.ObjectOf(id).(*types.Var); ok && !v.IsField() {
+			if def := soleDefinition(info, fi.Decl, v); def != nil {
+				if fl, ok := ast.Unparen(def).(*ast.FuncLit); ok {
+					return &bodyRef{Body: fl.Body, FI: fi, Lit: fl, Params: paramObjsLit(info, fl), Caller: fi}
+				}
+				return resolveFuncBody(fi, def)
+			}
+		}
+	}
+	var obj types.Object
+	switch f := fun.(type) {
+	case *ast.Ident:
+		obj = info.ObjectOf(f)
+	case *ast.SelectorExpr:
+		obj = info.ObjectOf(f.Sel)
+	}
+	if f, ok := obj.(*types.Func); ok && f.Pkg() != nil && isRepoPkg(f.Pkg()) && gProg != nil {
+		if cfi := gProg.infoFor(f); cfi != nil && cfi.Decl.Body != nil {
+			return &bodyRef{Body: cfi.Decl.Body, FI: cfi, Params: paramObjs(cfi.Pkg.TypesInfo, cfi.Decl), Caller: fi}
+		}
+	}
+	return nil
+}
+
+// resolveCallBody resolves the body run by a call (go / defer / plain) and binds its parameters.
+func resolveCallBody(fi *FuncInfo, call *ast.CallExpr) *bodyRef {
+	br := resolveFuncBody(fi, call.Fun)
+	if br == nil {
+		return nil
+	}
+	br.ArgOf = map[types.Object]ast.Expr{}
+	for i, p := range br.Params {
+		if p != nil && i < len(call.Args) {
+			br.ArgOf[p] = call.Args[i]
+		}
+	}
+	return br
+}
+
+// goBodies lists the bodies of the goroutines started in fi (not nested in other literals' goroutines).
+func goBodies(fi *FuncInfo) []*bodyRef {
+	var out []*bodyRef
+	ast.Inspect(fi.Decl.Body, func(n ast.Node) bool {
+		if gs, ok := n.(*ast.GoStmt); ok {
+			if br := resolveCallBody(fi, gs.Call); br != nil {
+				out = append(out, br)
+			}
+		}
+		return true
+	})
+	return out
+}
